@@ -7,6 +7,11 @@
     (exon/intron rows whose `gene_ids` column joins several ids), a mono-exon gene, a gene covered by
     reads of an un-annotated exon combination and an intergenic spliced read cluster (novel transcript /
     gene / exon ids), an annotated gene without reads;
+  * a locus in which one transcript structure is listed under two gene ids (merged annotation sources: both genes
+    share every intron) with reads of an un-annotated exon combination (tie in `select_reference_gene`);
+  * IsoQuant-style ids in the annotation (`novel_gene_<chr>_<N>`, `transcript<N>.<chr>.nnic`, small N that differ
+    between chromosomes): what a reference produced by an earlier IsoQuant run looks like; the numbers are
+    reserved by `ExcludingIdDistributor` per chromosome;
   * reads named `<id>_<group>` for `--read_group read_id:_` with 3-5 group labels, polyA tails;
   * multimappers: secondary alignments of the same read name on another chromosome and on the same one.
 Everything random comes from the `random.Random` passed in.
@@ -41,7 +46,7 @@ def build(rng, n_chroms=3, reads_per_tx=6, chrom_names=None):
         rid[0] += 1
         return "r%d_%s" % (rid[0], rng.choice(groups))
 
-    lengths = rng.sample(range(42000, 70000, 1000), len(names))
+    lengths = rng.sample(range(52000, 82000, 1000), len(names))
     loci = {}
     for ci, chrom in enumerate(names):
         ds.add_chrom(chrom, lengths[ci])
@@ -89,11 +94,15 @@ def build(rng, n_chroms=3, reads_per_tx=6, chrom_names=None):
         meta["multi_gene_features"] += 1
         pos = pos2 + 1500
 
+        # ids in the style IsoQuant generates itself; numbers differ between chromosomes
+        iq = rng.sample(range(1, 10), 3)
+        meta.setdefault("isoquant_style_ids", {})[chrom] = sorted(iq)
+
         # 3. mono-exon gene
         strand = rng.choice("+-")
         ln = rng.randint(600, 1200)
         mono = [(pos, pos + ln)]
-        ds.add_gene(chrom, "G%s_mono" % tag, strand, [("T%s_mono" % tag, mono)])
+        ds.add_gene(chrom, "novel_gene_%s_%d" % (chrom, iq[0]), strand, [("transcript%d.%s.nnic" % (iq[1], chrom), mono)])
         reads_for(mono, strand, reads_per_tx, trunc=False)
         pos += ln + 2000
 
@@ -120,7 +129,21 @@ def build(rng, n_chroms=3, reads_per_tx=6, chrom_names=None):
         # 6. annotated gene without reads
         strand = rng.choice("+-")
         ex, pos2 = _exons(rng, pos, 3)
-        ds.add_gene(chrom, "G%s_silent" % tag, strand, [("T%s_silent" % tag, ex)])
+        ds.add_gene(chrom, "G%s_silent" % tag, strand, [("transcript%d.%s.nic" % (iq[2], chrom), ex)])
+        pos = pos2 + 2000
+
+        # 7. one transcript structure under two gene ids + reads of an un-annotated exon combination: every
+        #    annotated intron of the novel isoform belongs to both genes equally often
+        strand = rng.choice("+-")
+        ex, pos2 = _exons(rng, pos, 5)
+        la, lb = rng.sample(["twinP", "Qtwin", "t9w", "MERGED1", "alt", "zz"], 2)
+        ds.add_gene(chrom, "G%s_%s" % (tag, la), strand, [("T%s_%s" % (tag, la), ex)])
+        ds.add_gene(chrom, "G%s_%s" % (tag, lb), strand, [("T%s_%s" % (tag, lb), ex)])
+        reads_for(ex, strand, reads_per_tx, trunc=False)
+        nov = ex[:2] + ex[3:]
+        ds.plant_sites(chrom, [(nov[1][1] + 1, nov[2][0] - 1)], strand)
+        reads_for(nov, strand, reads_per_tx + 2, trunc=False)
+        meta["tied_gene_loci"] = meta.get("tied_gene_loci", 0) + 1
         pos = pos2 + 1000
         assert pos < lengths[ci] - 500, (pos, lengths[ci])
 
